@@ -29,6 +29,37 @@ def boundary_cases():
     cases.append(("dir-listing-64k", dir_n(3000, 20)))
     cases.append(("dir-listing-long-names", dir_n(300, 250)))
 
+    def dir_listing_bytes(total):
+        # one header (255 fifos, consecutive inodes in one metadata block): listing = 12 + 255*8 + sum(name lengths)
+        def b(r):
+            n = 255
+            want = total - 12 - 8 * n
+            base, extra = divmod(want, n)
+            t = {b"": Node("dir", 0o755), b"d": Node("dir", 0o755), b"d2": Node("dir", 0o700)}
+            for i in range(n):
+                L = base + (1 if i < extra else 0)
+                t[b"d/" + (b"%03d" % i) + b"n" * (L - 3)] = Node("fifo", 0o644)
+            t[b"d2/x"] = Node("file", 0o644, data=[("bytes", b"after")])
+            return t, base_cfg(), "ok"
+        return b
+    def repeated_blocks(comp, bs):
+        # files made of identical non-zero blocks: duplicate runs that overlap the file itself
+        def b(r):
+            P = bytes([0xAA]) * bs
+            Q = (b"pattern-Q" * (bs // 9 + 1))[:bs]
+            t = {b"": Node("dir", 0o755),
+                 b"a": Node("file", 0o644, data=[("bytes", P)]),
+                 b"b": Node("file", 0o644, data=[("bytes", P * 3)]),
+                 b"c": Node("file", 0o644, data=[("bytes", Q * 2 + b"tail")]),
+                 b"d": Node("file", 0o644, data=[("bytes", Q * 5)]),
+                 b"e": Node("file", 0o644, data=[("bytes", P * 2 + Q + P)]),
+                 b"f": Node("file", 0o644, data=[("bytes", P * 7 + b"x")]),
+                 b"g": Node("file", 0o644, data=[("rand", 3, bs), ("bytes", P * 4)])}
+            return t, base_cfg(comp=comp, bs=bs), "ok"
+        return b
+    for comp, bs in (("gzip", 4096), ("xz", 4096), ("lz4", 8192), ("zstd", 131072)):
+        cases.append(("repeated-blocks-%s-%d" % (comp, bs), repeated_blocks(comp, bs)))
+
     def xattr_sets(n):
         def b(r):
             t = {b"": Node("dir", 0o755)}
@@ -162,6 +193,48 @@ def heavy_cases():
     return cases
 
 
+DIRSIZE_TARGETS = list(range(65529, 65539))
+
+
+def dirsize_tree(sumlen):
+    n = 255
+    base, extra = divmod(sumlen, n)
+    t = {b"": Node("dir", 0o755), b"d": Node("dir", 0o755), b"d2": Node("dir", 0o700)}
+    for i in range(n):
+        L = base + (1 if i < extra else 0)
+        t[b"d/" + (b"%03d" % i) + b"n" * (L - 3)] = Node("fifo", 0o644)
+    t[b"d2/x"] = Node("file", 0o644, data=[("bytes", b"after")])
+    return t
+
+
+def dirsize_case(binaries, target, work, oc):
+    """Directory whose listing has exactly `target` bytes (the basic/extended inode boundary at 64 KiB - 3).
+    The header count depends on metadata block crossings, so a calibration run measures it first."""
+    c = {"comp": "gzip", "bs": 4096, "input": "packfile", "extra": [], "e": False}
+    sumlen = 63300
+    for attempt in range(4):
+        tree = dirsize_tree(sumlen)
+        w = os.path.join(work, "cal%d" % attempt)
+        os.makedirs(w)
+        res, img = packcase.run_pack(binaries, tree, c, w, oc)
+        if res.rc != 0 or res.san:
+            return tree, c, res, img
+        try:
+            im = sqfsimg.parse(open(img, "rb").read(), want_content=False)
+            got = sum(12 + sum(8 + len(e[3]) for e in h[4]) for h in im.dir_layout.get(b"d", []))
+        except Exception:
+            # unreadable: let the normal oracle report it
+            return tree, c, res, img
+        if got == target:
+            oc.inc("dirsize_targets_hit")
+            return tree, c, res, img
+        if abs(target - got) > 3000 or not (255 * 4 <= sumlen + target - got <= 255 * 256):
+            # not a calibration problem: hand the image to the normal oracle
+            return tree, c, res, img
+        sumlen += target - got
+    return tree, c, res, img
+
+
 def run_case(arg):
     kind, idx, tier = arg
     binaries = build.build("asan")
@@ -176,6 +249,11 @@ def run_case(arg):
                 feats = {name}
                 oc.case_id = name
                 cli = len(tree) <= 600
+            elif kind == "dirsize":
+                tree, c, want = None, None, "ok"
+                feats = {"dir-listing-%d-bytes" % DIRSIZE_TARGETS[idx]}
+                oc.case_id = "dir-listing-%d-bytes" % DIRSIZE_TARGETS[idx]
+                cli = True
             elif kind == "heavy":
                 name, builder = heavy_cases()[idx]
                 tree, c, want = builder(r)
@@ -207,7 +285,10 @@ def run_case(arg):
                     ({"defaults"} if c.get("defaults") else set()) | ({"set-ids"} if c.get("set_uid") is not None or c.get("set_gid") is not None else set()) | \
                     ({"j%s" % c.get("j")}) | ({"xattr-file"} if c.get("xattr_file") else set())
             oc.features = tuple(sorted(feats))
-            res, img = packcase.run_pack(binaries, tree, c, work, oc, stack_kb=c.get("stack_kb"))
+            if kind == "dirsize":
+                tree, c, res, img = dirsize_case(binaries, DIRSIZE_TARGETS[idx], work, oc)
+            else:
+                res, img = packcase.run_pack(binaries, tree, c, work, oc, stack_kb=c.get("stack_kb"))
             oc.sample = {"case": oc.case_id, "config": {k: v for k, v in c.items() if v not in (None, False, [])},
                          "entries": len(tree), "exit": res.rc}
             if res.san:
@@ -248,7 +329,8 @@ def main(tier):
     build.build("asan")
     nb = len(boundary_cases())
     nrand = 120 if tier == "quick" else 2500
-    items = [("boundary", i, tier) for i in range(nb)] + [("random", i, tier) for i in range(nrand)]
+    items = [("boundary", i, tier) for i in range(nb)] + [("dirsize", i, tier) for i in range(len(DIRSIZE_TARGETS))] + \
+        [("random", i, tier) for i in range(nrand)]
     if tier == "thorough":
         items += [("heavy", i, tier) for i in range(len(heavy_cases()))]
     only = os.environ.get("VERIF_ONLY")
@@ -261,7 +343,7 @@ def main(tier):
         # C03 keys are reported by the C03 check
         oc.violations = [v for v in oc.violations if not v[0].startswith("c03:")]
         rep.add(oc)
-    rep.required_nonzero = ["parser_fields", "cli_stat", "cli_cat", "cli_unpack", "unrepresentable_inputs"]
+    rep.required_nonzero = ["parser_fields", "cli_stat", "cli_cat", "cli_unpack", "unrepresentable_inputs", "dirsize_targets_hit"]
     rep.assumptions = ["independent parser vp/sqfsimg.py is correct (cross-checked against rdsquashfs views on every image)",
                        "tmpfs/ext4 semantics of the sandbox for mknod/chown/xattr"]
     return rep.finish()
